@@ -140,6 +140,21 @@ def build(job):
         os.makedirs(os.path.join(CACHE, "logs"), exist_ok=True)
         with open(os.path.join(CACHE, "logs", "%s-%s.build.log" % (job.name, job.config)), "w") as f:
             f.write(" ".join(cmd) + "\n" + p.stderr)
+        # a kernel of the frozen universe no longer compiles on this tree: isolate it, keep the rest running
+        if isinstance(job.source, TU) and job.source.stmts and len(job.source.stmts) > 1 and getattr(job, "reduce_depth", 0) < 6:
+            t = job.source
+            bad = set()
+            for m in re.finditer(re.escape(src) + r":(\d+):\d+:", p.stderr):
+                ln = int(m.group(1))
+                if t.first_line <= ln < t.first_line + len(t.stmts):
+                    bad.add(ln - t.first_line)
+            if bad and len(bad) < len(t.stmts):
+                m = re.search(r"error: (.*)", p.stderr)
+                err = m.group(1)[:160] if m else "?"
+                job.dropped = getattr(job, "dropped", []) + [(t.stmts[i][0], err) for i in sorted(bad)]
+                job.source = tu(t.header, [st for i, st in enumerate(t.stmts) if i not in bad], t.prologue)
+                job.reduce_depth = getattr(job, "reduce_depth", 0) + 1
+                return build(job)
         return job
     os.replace(binp + ".tmp", binp)
     job.build_ok = True
@@ -321,6 +336,10 @@ class Result:
                 for w in r["w"]:
                     pcs.append(w.get("pc"))
         self.kernels[job.config] = self.kernels.get(job.config, 0) + nk
+        for desc, err in getattr(job, "dropped", []):
+            self.violations.append({"config": job.config, "kernel": desc, "cls": "kernel_no_longer_compiles", "count": 1,
+                                    "witnesses": [{"in": desc, "exp": "instantiates, as it did when the universe was frozen against the pinned tree", "obs": "does not compile: " + err}],
+                                    "site": None, "chain": None, "binary": job.binary, "job": job.name})
         sym = symbolize(job.binary, pcs) if pcs else {}
         for r in job.records:
             if r.get("t") == "v":
@@ -425,6 +444,18 @@ def shard(stmts, n):
     return out
 
 
+class TU(str):
+    """generated translation unit that remembers its kernel statements, so that a kernel which stops compiling can be isolated"""
+    header = None
+    stmts = None
+    prologue = ""
+    first_line = 0
+
+
 def tu(header, stmts, prologue=""):
+    head = '#include "harness/%s"\n%s\nint main() {\n    vf::install();\n' % (header, prologue)
     body = "\n".join("    if (vf::kernel_selected(%s)) { %s }" % (json.dumps(d), s) for d, s in stmts)
-    return '#include "harness/%s"\n%s\nint main() {\n    vf::install();\n%s\n    vf::finish();\n    return 0;\n}\n' % (header, prologue, body)
+    t = TU(head + body + "\n    vf::finish();\n    return 0;\n}\n")
+    t.header, t.stmts, t.prologue = header, list(stmts), prologue
+    t.first_line = head.count("\n") + 1
+    return t
